@@ -1,0 +1,27 @@
+//go:build verif
+
+package filtering
+
+// VerifStartNoLoop does what Start does except starting the updates loop: the
+// harness runs the loop's body itself, as a scheduled task, through
+// VerifDrainInitializer.
+func (d *DNSFilter) VerifStartNoLoop() {
+	d.filtersInitializerChan = make(chan filtersInitializerParams, 1)
+	d.done = make(chan struct{}, 1)
+
+	d.RegisterFilteringHandlers()
+}
+
+// VerifDrainInitializer runs the body of the updates loop for every pending
+// engine (re)initialisation request and returns the number handled.
+func (d *DNSFilter) VerifDrainInitializer() (n int) {
+	for {
+		select {
+		case params := <-d.filtersInitializerChan:
+			_ = d.initFiltering(params.allowFilters, params.blockFilters)
+			n++
+		default:
+			return n
+		}
+	}
+}
